@@ -137,6 +137,40 @@ def gen(repo):
     if tail[-2:] != ['self._cols[name][:] = value', 'self._mutate()']:
         raise TranslationError('_set_col: the tail no longer assigns the whole column by slice: %r' % (tail[-2:],))
 
+    # ---- BaseColumn._tosequence: how much of the value is read, and the length test ----------------
+    fn = find_function(bmod, 'BaseColumn._tosequence')
+    body = body_nodoc(fn)
+    if len(body) != 6:
+        raise TranslationError('_tosequence: %d statements, expected 6' % len(body))
+    expect_same(body[0], 'if length is None:\n    length = len(self._datamatrix)')
+    sc = the_if(body, 1, '_tosequence')
+    expect_same(sc.test, 'value is None or isinstance(value, BASESTRING_OR_NUMBER)')
+    expect_same(sc.body[0], 'return [self._checktype(value)] * length')
+    if not isinstance(body[2], ast.Try):
+        raise TranslationError('_tosequence: iterability test')
+    expect_same(body[2].body[0], 'iter(value)')
+    asg = body[3]
+    try:
+        comp = asg.value
+        assert isinstance(comp, ast.ListComp) and ast.unparse(comp.elt) == 'self._checktype(cell)'
+        g0 = comp.generators[0]
+        assert ast.unparse(g0.target) == 'cell' and not g0.ifs
+        call = g0.iter
+        assert ast.unparse(call.func) == 'itertools.islice' and len(call.args) == 3
+        assert ast.unparse(call.args[0]) == 'value' and ast.unparse(call.args[1]) == '0'
+        assert ast.unparse(asg.targets[0]) == 'seq'
+    except (AssertionError, AttributeError, IndexError):
+        raise TranslationError('_tosequence: the coercing comprehension changed: %s' % ast.unparse(asg))
+    env = Env([('length', 'length', 'Z')])
+    out.append('(* BaseColumn._tosequence: cells read from the value (islice bound), and the length test *)\n'
+               'Definition k_toseq_take (length : Z) : Z := %s.\n' % tr_typed(call.args[2], env, 'Z'))
+    bad = the_if(body, 4, '_tosequence')
+    env = Env([('len(seq)', 'seqlen', 'Z'), ('length', 'length', 'Z')])
+    out.append('Definition k_toseq_badlen (seqlen length : Z) : bool := %s.\n' % tr_typed(bad.test, env, 'bool'))
+    if not (isinstance(bad.body[0], ast.Raise) and ast.unparse(bad.body[0].exc.func) == 'ValueError'):
+        raise TranslationError('_tosequence: a wrong length must raise ValueError')
+    expect_same(body[5], 'return seq')
+
     # ---- Index: cache bookkeeping -----------------------------------------------------------
     fn = find_function(imod, 'Index.__init__')
     body = body_nodoc(fn)
